@@ -38,7 +38,8 @@ Definition mk_lblock (t : lbt) : lblock :=
      lb_vals := map unhex vs |}.
 
 (* the stub light client: table served by VerifyLightBlockAtHeight, heights TrustedLightBlock
-   knows, height Update returns (0: Update fails) *)
+   knows (TrustedLightBlock(0) = the highest of them), height Update returns (0: Update fails;
+   -1: Update returns neither an error nor a block - nothing newer than the latest trusted one) *)
 Definition orct := (list lbt * list Z * Z)%type.
 Fixpoint find_lb (tab : list lblock) (h : Z) : option lblock :=
   match tab with
@@ -49,8 +50,16 @@ Definition mk_oracle (t : orct) : oracle :=
   let '(tab, tr, latest) := t in
   let tb := map mk_lblock tab in
   {| o_verify := find_lb tb;
-     o_trusted := fun h => if existsb (Z.eqb h) tr then find_lb tb h else None;
-     o_update := if latest =? 0 then None else find_lb tb latest |}.
+     o_trusted := fun h => let h' := if h =? 0 then fold_left Z.max tr 0 else h in
+                           if existsb (Z.eqb h') tr then find_lb tb h' else None;
+     o_update := if latest =? 0 then UpdErr
+                 else if latest <? 0 then UpdNone
+                 else match find_lb tb latest with Some l => UpdBlock l | None => UpdErr end |}.
+(* the latest light block the client can answer with, read off the oracle (not through Model.upd) *)
+Definition want_latest (orc : oracle) : option lblock :=
+  match o_update orc with UpdErr => None | UpdBlock l => Some l | UpdNone => o_trusted orc 0 end.
+(* the harness records a panic of the client as a call with code 9 *)
+Definition no_panic (calls_i : list (N * Z)) : bool := negb (existsb (fun c : N * Z => (fst c =? 9)%N) calls_i).
 Definition truth (t : orct) (h : Z) : option lblock := let '(tab, _, _) := t in find_lb (map mk_lblock tab) h.
 
 (* block: header, Header.ValidateBasic ok, LastCommit ok, LastCommit.Hash(), txs, evidence ok,
@@ -254,8 +263,9 @@ Definition check (c : case) : verdict :=
   | CCommit o height ok_i out_i canon_i calls_i =>
     let orc := mk_oracle o in
     let '(calls_m, out_m) := relay_commit orc height in
-    let want := match height with Some h => truth o h | None => o_update orc end in
+    let want := match height with Some h => truth o h | None => want_latest orc end in
     first_of [
+      viol (no_panic calls_i) 17;
       viol (imp ok_i match want with
                      | None => false
                      | Some l => bytes_eqb (unhex (fst out_i)) (hh_x (lb_header l))
@@ -270,10 +280,13 @@ Definition check (c : case) : verdict :=
   | CVals o height pg pp ok_i out_i calls_i =>
     let orc := mk_oracle o in
     let '(calls_m, out_m) := relay_validators orc height pg pp in
-    let want := match height with Some h => truth o h | None => o_update orc end in
+    let want := match height with Some h => truth o h | None => want_latest orc end in
     let '(bh_i, vals_i, count_i, total_i) := out_i in
     let vs := map unhex vals_i in
     first_of [
+      viol (no_panic calls_i) 17;
+      (* the honest case: a light block is available and the requested page exists *)
+      viol (imp (match want, height, pg with Some _, None, None => true | _, _, _ => false end) ok_i) 9;
       (* what is returned is a run of consecutive validators of the verified set of that height,
          at most maxPerPage of them, with the right totals *)
       viol (imp ok_i match want with
